@@ -5,5 +5,12 @@ jsonschema.validate(m, json.load(open('/root/.vp/MANIFEST.schema.json')))
 print('manifest ok')
 es = json.load(open('/root/.vp/EVIDENCE.schema.json'))
 for f in sorted(glob.glob('/verif/evidence/*.json')):
-    jsonschema.validate(json.load(open(f)), es)
+    e = json.load(open(f))
+    jsonschema.validate(e, es)
+    c = e.get('coverage', {})
+    # a committed evidence file must describe a run on the unchanged tree: everything claimed is discharged
+    if e.get('level') == 'proof' and c.get('discharged') != c.get('obligations'):
+        sys.exit(f'{f}: discharged {c.get("discharged")} != obligations {c.get("obligations")} (evidence of a run on a changed tree?)')
+    if e.get('violations'):
+        sys.exit(f'{f}: records {e["violations"]} violations')
     print(f, 'ok')
